@@ -62,6 +62,28 @@ def run(ctx):
         if not a.startswith("ok "):
             ctx.fail("to_boc-failed", f"{a}", {"dag": c[0], "opts": c[1:]})
     ctx.extra["strictly_decoded"] = n
+    # history: serialising sub-DAGs first (alone, under other option sets) must not change the bytes emitted for the root
+    nh = 0
+    for c, a in zip(cases, impl):
+        if not a.startswith("ok ") or not (3 <= len(c[0]) <= 40) or nh >= ctx.n(150, 1500):
+            continue
+        nh += 1
+        firsts = [rng.randrange(len(c[0]) - 1) for _ in range(rng.choice([1, 2, 3]))]
+        r = core.call_impl(lambda _: history_boc(c, firsts), None, timeout_s=60)
+        if r != a:
+            ctx.fail("to_boc-depends-on-earlier-serialisations",
+                     f"after serialising sub-cells {firsts} alone, to_boc{c[1:]} of the root gives other bytes ({r[:40]})",
+                     {"dag": c[0], "opts": c[1:], "firsts": firsts})
+    ctx.extra["history_cases"] = nh
+
+
+def history_boc(c, firsts):
+    dag, idx, crc, cache = c
+    objs = cells.build_py(dag)
+    for i in firsts:
+        objs[i].to_boc()
+        objs[i].to_boc(has_idx=True, hash_crc32=True)
+    return "ok " + objs[-1].to_boc(has_idx=bool(idx), hash_crc32=bool(crc), has_cache_bits=bool(cache)).hex()
 
 
 def why_rejected(c, h):
@@ -73,6 +95,10 @@ def replay(ctx, obj):
     c = obj["case"]
     d = [(t, b, list(r)) for t, b, r in c["dag"]]
     o = tuple(c["opts"])
+    if "firsts" in c:
+        a = core.call_impl(boc.py_to_boc, (d,) + o, timeout_s=120)
+        r = core.call_impl(lambda _: history_boc((d,) + o, c["firsts"]), None, timeout_s=120)
+        return None if r == a else "to_boc of the root depends on earlier serialisations of its sub-cells"
     a = core.call_impl(boc.py_to_boc, (d,) + o, timeout_s=120)
     if not a.startswith("ok "):
         return f"to_boc failed: {a}"
